@@ -113,6 +113,30 @@ def run_case(case, tier):
             vec = [rng.uniform(-5, 5) for _ in range(3)]
             one(theta, axis, vec, True)
             ex = {"theta": theta, "axis": axis, "vec": vec}
+        # the same two objects used again and again, their components changed in place between the calls (what a
+        # caller that scans an angle or walks along a chain does), with angles that repeat: every call answers for
+        # the components the objects hold at that moment, and leaves them as they are
+        ax_o, v_o = Vector(1.0, 2.0, 3.0), Vector(0.5, -1.0, 2.0)
+        thetas = [rng.uniform(-math.pi, math.pi) for _ in range(3)]
+        for _ in range(max(20, case["n"] // 50)):
+            if rng.random() < 0.7:
+                ax_o.x, ax_o.y, ax_o.z = (rng.choice((1, -1)) * 10 ** rng.uniform(-2, 2) for _ in range(3))
+                if rng.random() < 0.2:
+                    setattr(ax_o, rng.choice("xyz"), 0.0)
+            if rng.random() < 0.7:
+                v_o.x, v_o.y, v_o.z = (rng.uniform(-5, 5) for _ in range(3))
+            th = rng.choice(thetas)
+            a_, w_ = (ax_o.x, ax_o.y, ax_o.z), (v_o.x, v_o.y, v_o.z)
+            if not any(a_):
+                continue
+            r = real(th, ax_o, v_o)
+            counts["calls_on_reused_objects"] = counts.get("calls_on_reused_objects", 0) + 1
+            msg = rotate.check(th, a_, w_, (r.x, r.y, r.z))
+            if msg and len(viol) < 10:
+                viol.append({"cls": "rotation-depends-on-earlier-calls", "msg": "objects used before, components changed in place: " + msg})
+            if (ax_o.x, ax_o.y, ax_o.z) != a_ or (v_o.x, v_o.y, v_o.z) != w_:
+                viol.append({"cls": "rotation-changes-its-arguments", "msg": "axis %r -> %r, vector %r -> %r" % (a_, (ax_o.x, ax_o.y, ax_o.z), w_, (v_o.x, v_o.y, v_o.z))})
+                break
         classes.append("random")
         sample = {"kind": "random", "n": case["n"], "last": ex}
     else:
